@@ -60,6 +60,12 @@ Vals ==
     uri |-> <<[t |-> "uri", u |-> A \o Y]>>, qn |-> <<Ref(NameQN("ex", A, Y))>>,
     qnew |-> <<Ref(NameQN("zz", C, Y))>>,
     lang |-> <<[t |-> "lang", v |-> "s1", lang |-> "en"]>>,
+    emptylang |-> <<[t |-> "lang", v |-> "e", lang |-> "en"]>>,
+    emptylit |-> <<[t |-> "lit", v |-> "e", dt |-> QN("ex", A, <<"dtype">>)]>>,
+    zero |-> <<[t |-> "int", v |-> "0"], [t |-> "float", v |-> "h"]>>,
+    nasty |-> <<[t |-> "str", v |-> "nq"]>>,
+    nastylang |-> <<[t |-> "lang", v |-> "nq", lang |-> "fr"]>>,
+    nastylit |-> <<[t |-> "lit", v |-> "nq", dt |-> QN("ex", A, <<"dtype">>)]>>,
     lit |-> <<[t |-> "lit", v |-> "s1", dt |-> QN("ex", A, <<"dtype">>)]>>,
     litnew |-> <<[t |-> "lit", v |-> "s1", dt |-> QN("zz", C, <<"dtype">>)]>>,
     two |-> <<[t |-> "str", v |-> "s1"], [t |-> "int", v |-> "7"]>>,
@@ -68,12 +74,12 @@ Vals ==
     none |-> <<>> ]
 ValueClasses == DOMAIN Vals
 ExtraSet ==
-  CASE ExtraPreset = "min"    -> {<<"other", "none">>, <<"other", "two">>}
+  CASE ExtraPreset = "min"    -> {<<"other", "none">>, <<"other", "two">>, <<"other", "nasty">>}
     [] ExtraPreset = "values" -> {<<"other", v>> : v \in ValueClasses}
     [] ExtraPreset = "attrs"  -> {<<a, v>> : a \in DOMAIN AttrNames, v \in {"str", "qn", "int", "subtype"}}
     [] ExtraPreset = "all"    -> {<<a, v>> : a \in DOMAIN AttrNames, v \in ValueClasses}
 (* PROV-XML types prov:label as a string: only plain and language-tagged labels are XML-expressible *)
-XmlOK(e) == ("xml" \notin Fmts) \/ e[1] # "label" \/ e[2] \in {"str", "empty", "lang", "none"}
+XmlOK(e) == ("xml" \notin Fmts) \/ e[1] # "label" \/ e[2] \in {"str", "empty", "lang", "none", "nasty", "nastylang"}
 (* FinalOp = "Export" (C13): Fmts is the set of exporters; every ordered pair and a triple repetition *)
 ExportSeqs == {<<a, b>> : a \in Fmts, b \in Fmts} \cup {<<a, a, a>> : a \in Fmts}
 Final == IF FinalOp = "Export"
@@ -117,6 +123,31 @@ NsRecActs ==
   \cup { [op |-> "NewRec", h |-> h, k |-> "generation", via |-> "new_record", id |-> <<>>,
            formals |-> << <<"entity", Ref(e)>>, <<"activity", Ref(NameQN("", C, Y))>> >>, extras |-> <<>>]
            : h \in {"d1", "b1"}, e \in {NamePL("ex", X), NameBare(X)} }
+(* Mode "graph": bundle-free documents with declared and undeclared endpoints, repeated     *)
+(* identifiers, parallel relations, self-loops, relations lacking an endpoint (C14, C15)     *)
+Z == <<"z">>
+GR(k, idn, fs, ex) == [op |-> "NewRec", h |-> "d1", k |-> k, via |-> "new_record", id |-> idn,
+                       formals |-> fs, extras |-> ex]
+Rf(l) == Ref(NamePL("ex", l))
+GraphActs ==
+  { GR("entity", <<NamePL("ex", X)>>, <<>>, <<>>),
+    GR("entity", <<NamePL("ex", X)>>, <<>>, << <<NameQN("ex", A, <<"attr">>), [t |-> "str", v |-> "s1"]>> >>),
+    GR("agent", <<NamePL("ex", X)>>, <<>>, <<>>),
+    GR("activity", <<NamePL("ex", Y)>>, << <<"startTime", [t |-> "dt", v |-> "t1"]>> >>, <<>>),
+    GR("entity", <<NamePL("ex", Y)>>, <<>>, << <<NamePL("prov", <<"label">>), [t |-> "str", v |-> "s2"]>> >>),
+    GR("generation", <<>>, << <<"entity", Rf(X)>>, <<"activity", Rf(Y)>> >>, <<>>),
+    GR("generation", <<NamePL("ex", <<"g">>)>>, << <<"entity", Rf(X)>>, <<"activity", Rf(Y)>>, <<"time", [t |-> "dt", v |-> "t1"]>> >>,
+       << <<NamePL("prov", <<"role">>), [t |-> "str", v |-> "s1"]>> >>),
+    GR("generation", <<>>, << <<"entity", Rf(X)>> >>, <<>>),
+    GR("usage", <<>>, << <<"activity", Rf(Y)>>, <<"entity", Rf(Z)>> >>, <<>>),
+    GR("derivation", <<>>, << <<"generatedEntity", Rf(X)>>, <<"usedEntity", Rf(X)>> >>, <<>>),
+    GR("derivation", <<>>, << <<"generatedEntity", Rf(X)>>, <<"usedEntity", Rf(Z)>>, <<"activity", Rf(Y)>> >>, <<>>),
+    GR("attribution", <<>>, << <<"entity", Rf(X)>>, <<"agent", Rf(Z)>> >>, <<>>),
+    GR("association", <<>>, << <<"activity", Rf(Y)>>, <<"agent", Rf(X)>>, <<"plan", Rf(Z)>> >>, <<>>),
+    GR("influence", <<>>, << <<"influencee", Rf(X)>>, <<"influencer", Rf(Y)>> >>, <<>>),
+    GR("membership", <<>>, << <<"collection", Rf(X)>>, <<"entity", Rf(Y)>> >>, <<>>),
+    GR("specialization", <<>>, << <<"specificEntity", Rf(X)>>, <<"generalEntity", Rf(Z)>> >>, <<>>) }
+
 DefaultOK(a) == IF a.op = "SetDefault" THEN ms.mgr[MgrOf(ms, a.h)].dflt \in {NONE, a.u} ELSE TRUE
 
 Finished == Len(hist) > NSetup /\ hist[Len(hist)] \in Final
@@ -130,6 +161,7 @@ Build ==
   /\ IF Mode = "shapes"
      THEN \/ (Len(hist) = NSetup /\ \E a \in ShapeActs("d1") : Step(a))
           \/ (Len(hist) > NSetup /\ \E a \in SecondActs : Step(a))
+     ELSE IF Mode = "graph" THEN \E a \in GraphActs : Step(a)
      ELSE \E a \in NsActs \cup NsRecActs : DefaultOK(a) /\ Step(a)
 Export == ~Finished /\ Len(hist) > NSetup /\ \E a \in Final : Step(a)
 Next == Build \/ Export
